@@ -43,3 +43,20 @@ def main():
 
 if __name__ == "__main__":
     main()
+
+
+def summary(factsfile, regex, maxw=170):
+    f = facts.Facts(factsfile)
+    for b in f.bodies_matching(regex):
+        print("==", b.path)
+        for p in sym.walk(b, max_paths=100000):
+            ds = ["%s=%s" % (sym.show(e[2], 3)[:60], e[3]) for e in p if e[0] == "switch"]
+            cs = [sym.short(e[2]).split("::")[-1] for e in p if e[0] == "call"]
+            st = ["%s:=%s" % (sym.show(e[2], 3), sym.show(e[3], 3)[:50]) for e in p if e[0] == "store"]
+            last = p[-1]
+            end = sym.show(last[2], 3)[:maxw] if last[0] == "ret" else str(last[:2])
+            print(" *", "; ".join(ds)[:400]); print("     calls:", " ".join(cs)[:300]); print("     stores:", "; ".join(st)[:300]); print("     end:", end)
+
+
+if __name__ == "__main__" and "--summary" in sys.argv:
+    pass
